@@ -30,6 +30,18 @@ fn main() {
         Some("one") if a.len() >= 6 => run::one_main(&a[2], tier(&a[3]), a[4].parse().unwrap_or(0), a[5].parse().unwrap_or(0)),
         Some("replay") if a.len() >= 3 => run::replay_main(Path::new(&a[2])),
         Some("shrink") if a.len() >= 4 => run::shrink_main(Path::new(&a[2]), Path::new(&a[3])),
+        Some("show") if a.len() >= 3 => {
+            lab::install_panic_hook();
+            let rf: run::ReplayFile = serde_json::from_slice(&std::fs::read(&a[2]).unwrap()).unwrap();
+            println!("{} | {}", rf.clause, rf.detail);
+            if let case::Case::C17(c) = &rf.case {
+                println!("doc = {:?} target={:?} radius={} entry={:?}", c.doc.lossy(), c.target, c.radius, c.entry);
+                prop::c17::show(c);
+            } else {
+                println!("{}", serde_json::to_string_pretty(&rf.case).unwrap());
+            }
+            0
+        }
         Some("gen") if a.len() >= 6 => {
             // print one generated case
             match props::spec(&a[2]) {
